@@ -357,6 +357,7 @@ BUFR_Tables *bufr_extract_tables( BUFR_Dataset *dts )
    tbls->local.tableD = (EntryTableDArray)arr_create( 100, sizeof(EntryTableD *), 100 );
    tbls->local.tableB = (EntryTableBArray)arr_create( 100, sizeof(EntryTableB *), 100 );
 
+   memset( &eb, 0, sizeof(eb) );   /* af_nbits and ref_nbits are copied into every extracted entry */
    eb.description = NULL;
    eb.unit = NULL;
 
